@@ -296,6 +296,33 @@ func run(id, tier, only string) int {
 		}
 	}
 
+	// A report made after a bubble of the same worker process had been abandoned by the real-time watchdog (its goroutines
+	// keep running and share the process' pools with the later cases) is confirmed in a fresh process, case alone, before it
+	// is believed: up to three tries. What does not reproduce is listed as inconclusive, not as a violation.
+	if only == "" {
+		var kept []vf.Violation
+		confirmed := map[string]bool{}
+		for _, v := range viol {
+			if !v.Tainted {
+				kept = append(kept, v)
+				continue
+			}
+			ok, tried := confirmed[v.Case]
+			if !tried {
+				for try := 0; try < 3 && !ok; try++ {
+					ok = reproduces(bin, bdir, id, tier, seed, v.Case, try)
+				}
+				confirmed[v.Case] = ok
+			}
+			if ok {
+				kept = append(kept, v)
+			} else {
+				violN--
+				inconc[fmt.Sprintf("%s on case %s was reported after an abandoned bubble in the same worker process and did not reproduce in a fresh process (3 tries)", v.Rule, v.Case)]++
+			}
+		}
+		viol = kept
+	}
 	findings := loadFindings()
 	raceInfo := map[string]any{}
 	if cfg.race {
@@ -412,6 +439,26 @@ func run(id, tier, only string) int {
 		return 3
 	}
 	return 0
+}
+
+// reproduces runs one case alone in a fresh worker process and says whether it reports any violation.
+func reproduces(bin, bdir, id, tier string, seed int64, caseID string, try int) bool {
+	outF := filepath.Join(bdir, fmt.Sprintf("confirm.%d.json", try))
+	os.Remove(outF)
+	cmd := exec.Command("timeout", "-s", "QUIT", "-k", "20", "600", bin, "-test.run", "^Test"+id+"$", "-test.timeout", "0")
+	cmd.Dir = bdir
+	cmd.Env = append(os.Environ(), "VERIF_SEED="+strconv.FormatInt(seed, 10), "VERIF_TIER="+tier, "VERIF_SHARD=0", "VERIF_NSHARDS=1",
+		"VERIF_OUT="+outF, "VERIF_ROOT="+root, "VERIF_ONLY_CASE="+caseID)
+	cmd.Run()
+	b, err := os.ReadFile(outF)
+	if err != nil {
+		return true // the case cannot even be run alone: keep the report
+	}
+	var r vf.Result
+	if json.Unmarshal(b, &r) != nil {
+		return true
+	}
+	return r.ViolationsN > 0
 }
 
 func firstN(s string, n int) string {
